@@ -130,7 +130,9 @@ MUTATIONS = {
         new="            while (timeout < 0 or duration < timeout) and more(bytes(input)):\n",
     ),
     "x08-more-consulted-first": dict(
-        # more() is asked before the timeout test: one extra consultation when the time is up
+        # more() is asked before the timeout test: one extra consultation, whose answer is ignored, when the
+        # time is up.  NOT a regression (no documented law is broken): the check must tolerate it (exit 0)
+        expect_exit=0,
         file="utils.py",
         old="            while (timeout < 0 or duration < timeout) and more(input):\n",
         new="            while more(input) and (timeout < 0 or duration < timeout):\n",
@@ -180,7 +182,7 @@ def apply(mid: str, m: dict) -> Path | None:
     f0 = root / "src" / "term_image" / BASELINE_FIX["file"]
     if f0.read_text().count(BASELINE_FIX["old"]) == 1:
         f0.write_text(f0.read_text().replace(BASELINE_FIX["old"], BASELINE_FIX["new"]))
-    elif m.get("needs_baseline"):
+    elif m.get("needs_baseline") and BASELINE_FIX["new"] not in f0.read_text():
         print(f"MUT {mid} X08 SKIPPED: write_tty no longer has the form BASELINE_FIX repairs", flush=True)
         shutil.rmtree(root, ignore_errors=True)
         return None
@@ -210,7 +212,8 @@ def run(mid: str, tier: str = "quick") -> bool:
         shutil.rmtree(root, ignore_errors=True)
     sigs = sorted({l.strip()[len("signature: "):] for l in p.stdout.splitlines() if l.strip().startswith("signature:")})
     want = m.get("expect_exit", 1)
-    own = [s for s in sigs if s != KNOWN]
+    # (mutants of the repaired write_tty legitimately re-create the finding's signature)
+    own = [s for s in sigs if s != KNOWN or m.get("needs_baseline")]
     ok = p.returncode == want and (want == 0 or bool(own))
     status = ("as expected" if want == 0 else "caught") if ok else ("MACHINERY" if p.returncode == 2 else "MISSED")
     print(f"MUT {mid} X08 exit={p.returncode} {status} {sigs}", flush=True)
